@@ -1,2 +1,14 @@
 import Gossamer.Props.C32
 open Gossamer.C32
+#print axioms C32_parents_first
+#print axioms C32_parents_first_exec
+#print axioms C32_handed_flag
+#print axioms C32_exec_flag
+#print axioms C32_never_fails
+#print axioms C32_at_most_once
+#print axioms C32_unready_good
+#print axioms C32_rejects_non_chain
+#print axioms C32_rejects_forged_hash
+#print axioms C32_forged_hash_reported
+#print axioms C32_accepted_honest_chain
+#print axioms C32_rejected_no_effect
